@@ -3,8 +3,10 @@ mod guard;
 mod e2;
 mod e3;
 mod e4;
+mod e5;
 mod tables;
 mod util;
+mod workload;
 
 use util::{Recorder, Rng};
 
@@ -33,9 +35,11 @@ fn main() {
                 "decobj" => e3::decobj(&mut rec, &mut rng, thorough),
                 "inter" => e3::inter(&mut rec, &mut rng, thorough),
                 "overhead" => e3::overhead(&mut rec, &mut rng, thorough),
+                "configs" => e3::configs(&mut rec, &mut rng, thorough, outdir, seed),
                 "plan" => e3::plan(&mut rec, &mut rng, thorough),
                 "linear" => e3::linear(&mut rec, &mut rng, thorough),
                 "matrices" => e4::matrices(&mut rec, &mut rng, thorough),
+                "cache" => e5::cache(&mut rec, &mut rng, thorough),
                 "wire" => e2::wire(&mut rec, &mut rng, thorough),
                 "otinew" => e2::oti_new(&mut rec, &mut rng, thorough),
                 "partition" => e2::partition(&mut rec, &mut rng, thorough),
